@@ -581,6 +581,8 @@ class Sample:
                             for i in range(size):
                                 self._dump_cn[start + i] += 1
                             start += size
+                        elif op == 3:  # Reference skip: no depth, but a gap
+                            start += size
         return self._dump_cn
 
     def _make_coverage(self, norm, muts):
@@ -689,6 +691,8 @@ class Sample:
                 s_start += size
             elif op == 4:  # Soft-clip
                 s_start += size
+            elif op == 3:  # Reference skip: the bases after it lie further on
+                start += size
             elif op in [0, 7, 8]:  # M, X and =
                 for i in range(size):
                     q = qual[s_start + i] if qual else prev_q
